@@ -61,11 +61,11 @@ def _basis_checks(basis_list, coords, a, b, key, fails, gauss):
         if isinstance(bas, LagrangeBasis):
             kn = [float(k) for k in bas.knots]
             own = kn[bas.index]
-            if abs(bas(own) - 1.0) > 1e-10:
+            if not (abs(bas(own) - 1.0) <= 1e-10):
                 fails.append(fail("lagrange_one_at_own_knot", "basis %d knots %r index %d: value %r" % (bi, kn, bas.index, bas(own)), key))
                 return
             for j, k in enumerate(kn):
-                if j != bas.index and abs(bas(k)) > 1e-10 and not np.isinf(k):
+                if j != bas.index and not (abs(bas(k)) <= 1e-10) and not np.isinf(k):
                     inside = True
                     if hasattr(bas, "point_in_support"):
                         inside = bas.point_in_support(k)
@@ -86,7 +86,7 @@ def _basis_checks(basis_list, coords, a, b, key, fails, gauss):
                     continue
                 xp, xm = x + h, x - h       # the step actually taken in floating point (coordinates far from the origin round it)
                 d_num = (bas(xp) - bas(xm)) / (xp - xm)
-                if abs(d_impl - d_num) > 1e-5 * max(1.0 / (hi - lo), abs(d_num)):
+                if not (abs(d_impl - d_num) <= 1e-5 * max(1.0 / (hi - lo), abs(d_num))):
                     fails.append(fail("first_derivative", "basis %d at x=%r: get_first_derivative %r, central difference %r" % (bi, x, d_impl, d_num), key))
                     return
         # integral vs composite Gauss-20 on every piece
@@ -95,7 +95,7 @@ def _basis_checks(basis_list, coords, a, b, key, fails, gauss):
             xs = lo + (GX + 1) * (hi - lo) / 2
             ref += float(np.dot(GW, [bas(x) for x in xs])) * (hi - lo) / 2
         val = bas.get_integral(a, b, gauss[0], gauss[1])
-        if abs(val - ref) > 1e-9 * (b - a):
+        if not (abs(val - ref) <= 1e-9 * (b - a)):
             fails.append(fail("basis_integral", "basis %d: get_integral %r, numerical integral of the basis values %r" % (bi, val, ref), key))
             return
 
@@ -149,7 +149,7 @@ def _global_case(c):
             for q in range(p + 1):
                 if q <= 1 or 2 ** m + 1 >= q + 1:
                     want = np.array([x[0] ** q for x in lat])
-                    if np.max(np.abs(W[:, q] - want)) > 1e-8 * max(1.0, abs(a[0]), abs(b[0])) ** q:
+                    if not (np.max(np.abs(W[:, q] - want)) <= 1e-8 * max(1.0, abs(a[0]), abs(b[0])) ** q):
                         i = int(np.argmax(np.abs(W[:, q] - want)))
                         fails.append(fail("polynomial_reproduction", "x^%d at %r: %r, exact %r (points %r, complete level %d)" % (q, lat[i], W[i, q], want[i], coords[0], m),
                                           dict(key, degree=("linear" if q <= 1 else "higher"))))
